@@ -534,6 +534,7 @@ fn main() {
     // times the patience; only the violation classes seen in EVERY execution are reported. A run
     // that conforms when re-executed is counted as unstable, not as a violation.
     let mut unstable = 0u64;
+    let mut unstable_classes: BTreeMap<String, u64> = BTreeMap::new();
     if opts.faults {
         let patient = Opts { threads: 1, seed: opts.seed, sample: 0, wait_ms: opts.wait_ms * 4, verbose: false,
                              index_base: opts.index_base + 47_000, faults: true };
@@ -552,7 +553,7 @@ fn main() {
         }
         let lines_ref = &lines;
         let patient_ref = &patient;
-        let outcomes: Vec<(usize, Vec<Viol>)> = std::thread::scope(|sc| {
+        let outcomes: Vec<(usize, Vec<Viol>, Vec<String>)> = std::thread::scope(|sc| {
             let handles: Vec<_> = todo
                 .into_iter()
                 .enumerate()
@@ -569,16 +570,20 @@ fn main() {
                                 break;
                             }
                         }
-                        (i, vs.into_iter().filter(|v| classes.contains(&v.class)).collect::<Vec<Viol>>())
+                        let first: Vec<String> = vs.iter().map(|v| v.class.clone()).collect();
+                        (i, vs.into_iter().filter(|v| classes.contains(&v.class)).collect::<Vec<Viol>>(), first)
                     })
                 })
                 .collect();
             handles.into_iter().map(|h| h.join().expect("retry thread")).collect()
         });
         let mut kept: Vec<(usize, Vec<Viol>)> = Vec::new();
-        for (i, stable) in outcomes {
+        for (i, stable, first) in outcomes {
             if stable.is_empty() {
                 unstable += 1;
+                for c in first {
+                    *unstable_classes.entry(c).or_insert(0) += 1;
+                }
             } else {
                 kept.push((i, stable));
             }
@@ -611,7 +616,7 @@ fn main() {
         "aborted": ENOUGH.load(Ordering::SeqCst), "violations": n_viol, "classes": classes,
         "requests": totals[0].load(Ordering::Relaxed), "responses": totals[1].load(Ordering::Relaxed),
         "probes": totals[2].load(Ordering::Relaxed), "hook_events": totals[3].load(Ordering::Relaxed),
-        "soft_stops": totals[4].load(Ordering::Relaxed), "hooked": hooked, "skipped": SKIPPED.load(Ordering::SeqCst), "unstable": unstable,
+        "soft_stops": totals[4].load(Ordering::Relaxed), "hooked": hooked, "skipped": SKIPPED.load(Ordering::SeqCst), "unstable": unstable, "unstable_classes": unstable_classes,
         "open_fds": std::fs::read_dir("/proc/self/fd").map(|d| d.count()).unwrap_or(0),
         "wall_s": t0.elapsed().as_secs_f64(), "samples": samples,
     }));
